@@ -723,7 +723,9 @@ pub fn plan(w: &mut World, p: &Profile, prop: &str) -> Plan {
     };
     let terminal = terminals[w.ch.draw("co.terminal", terminals.len() as u32) as usize];
     // which stacks are in the property's scope: C13/C14 state their guarantees without take()
-    let no_take = matches!(prop, "C13" | "C14");
+    // (C14 speaks of "every source item"; C13's clauses — exactly once per item of the stream, structured completion,
+    // the concurrency limit — hold for a stream that ends in take(n) as well)
+    let no_take = matches!(prop, "C14");
     let pool: Vec<usize> = if vec_source { VEC_STACKS.to_vec() } else { (0..STACKS.len()).collect() };
     let pool: Vec<usize> = pool.into_iter().filter(|&s| !(no_take && STACKS[s].1.contains(&Ad::Take))).collect();
     let stack = pool[w.ch.draw("co.stack", pool.len() as u32) as usize];
